@@ -202,6 +202,8 @@ QXmppClient gh_client_obj;
 int gh_sm_state;
 bool gh_authenticated;
 qstr gh_cfg_jidBare;
+typedef int qcfg;                  /* the QXmppConfiguration object: only its getters are used */
+qstr gh_cfg_domain, gh_cfg_user, gh_cfg_jid;   /* configured domain, user part and full JID (opaque; nothing relates them to the bare JID here) */
 
 /* ---- event log: packets sent, signals */
 int gh_sent; int gh_sent_type; qstr gh_sent_id; qstr gh_sent_to;
